@@ -108,6 +108,34 @@ pub fn with_schema<R>(
     }
 }
 
+/// The schema stages of the CLI for a schema given as an INTROSPECTION RESULT (`schema: x.json`): the real reader
+/// `schema_from_introspection_json`, the built-in scalars added as `extend_loaded_schema` (crates/cli/src/main.rs) does,
+/// and `type_system_to_ast` — the document `generate` hands to the schema / resolver type printers (every position in it
+/// is `Pos::default()`). `f` sees that document and the schema the operations are checked against.
+pub fn with_schema_json<R>(text: &str, f: impl FnOnce(&TypeSystemDocument, &Schema<Cow<str>, Pos>) -> R) -> Result<R, Stage> {
+    use graphql_type_system::{Node, ScalarDefinition, TypeDefinition};
+    let r = catch(std::panic::AssertUnwindSafe(|| {
+        let mut schema = match nitrogql_introspection::schema_from_introspection_json::<Pos>(text) {
+            Ok(s) => s,
+            Err(e) => {
+                return Err(Stage::Diags(vec![Diag { stage: "read-introspection", kind: "IntrospectionError".into(), line: 0, col: 0, file: 0, builtin: true, message: e.to_string() }]));
+            }
+        };
+        schema.extend(["Int", "Float", "String", "Boolean", "ID"].map(|name| {
+            (name.into(), Node::from(TypeDefinition::Scalar(ScalarDefinition { name: Node::from(name, Pos::builtin()), description: None }), Pos::builtin()))
+        }));
+        let ast = nitrogql_semantics::type_system_to_ast(&schema);
+        match catch(std::panic::AssertUnwindSafe(|| f(&ast, &schema))) {
+            Ok(v) => Ok(v),
+            Err(p) => Err(Stage::Panic("after-schema", p)),
+        }
+    }));
+    match r {
+        Err(p) => Err(Stage::Panic("schema-json", p)),
+        Ok(x) => x,
+    }
+}
+
 /// parse + resolve extensions (imports must be empty) + check one operation document text
 pub fn check_operation_text(schema: &Schema<Cow<str>, Pos>, text: &str, file: usize) -> Result<Vec<Diag>, Stage> {
     with_operation(schema, text, file, |_, diags| diags)
